@@ -416,3 +416,143 @@ def c02(run, replay):
     for s in scen[:2] + scen[-2:]:
         run.sample(s)
     run.sample([e for e in trace if not str(e.get("ev", "")).startswith("h:")][1:12])
+
+
+# --------------------------------------------------------------------------------------------- C03 / C04 / C05
+FAULT_POS = ["before", "cut-hdr", "cut-payload", "cut-last", "after"]
+
+
+def fault_scenarios(rnd, thorough):
+    scen = []
+    for d in ("c2s", "s2c"):
+        for fr in (1, 2, 3):
+            for pos in FAULT_POS:
+                for style in ("fin", "rst"):
+                    for window in (False, True):
+                        if not thorough and rnd.random() > 0.45:
+                            continue
+                        scen.append({"sc": "c03.fault", "args": {"dir": d, "frame": fr, "pos": pos, "style": style, "window": window,
+                                                                 "errors": rnd.random() < 0.5, "sub": rnd.random() < 0.3}})
+    for pos2 in (FAULT_POS if thorough else rnd.sample(FAULT_POS, 3)):       # double faults: second one right after the swap
+        for pos in (["cut-payload", "after", "before"] if thorough else [rnd.choice(["cut-payload", "after"])]):
+            scen.append({"sc": "c03.fault", "args": {"dir": "s2c", "frame": rnd.choice([1, 2, 3]), "pos": pos, "style": rnd.choice(["fin", "rst"]),
+                                                     "window": rnd.random() < 0.5, "double": True, "pos2": pos2, "sub": True}})
+    for pos in (FAULT_POS if thorough else ["cut-payload", "after"]):
+        scen.append({"sc": "c03.fault", "args": {"dir": "s2c", "frame": 1, "pos": pos, "style": "fin", "noreconnect": True}})
+    for errors in (False, True):
+        for hold in ([1, 20, 60] if thorough else [20]):
+            scen.append({"sc": "c03.writefail", "args": {"errors": errors, "holdms": hold, "style": rnd.choice(["fin", "rst"])}})
+    # schedule perturbation at the hook points of the failure paths
+    pts = ["rd.err", "rd.readerr", "main.incoming", "main.readerr", "closeinflight.pre", "closeinflight", "closechans.pre", "redial.spawn",
+           "redial.swap", "redial.reader", "inflight.add", "write.req.pre", "resp.lookup", "resp.deliver.pre", "main.failfast", "exec.pop"]
+    for s in scen:
+        if rnd.random() < 0.5:
+            s["args"]["p"] = rnd.choice([0.2, 0.5])
+            s["args"]["delay"] = rnd.sample(pts, 5)
+    return scen
+
+
+def outage_scenarios(rnd, thorough):
+    scen = []
+    for k in ([1, 2, 3, 5] if thorough else [1, 3]):
+        for errors in (False, True):
+            for second in (False, True):
+                for style in (["fin", "rst"] if thorough else [rnd.choice(["fin", "rst"])]):
+                    scen.append({"sc": "c05.outage", "args": {"faileddials": k, "errors": errors, "second": second, "style": style,
+                                                              "minus": rnd.choice([1000, 2000, 4000]), "maxus": rnd.choice([6000, 10000, 30000])}})
+    # a long outage: well over a hundred failed redials (scaled-down delays) - the schedule must stay within [min, max] for ever
+    scen.append({"sc": "c05.outage", "args": {"faileddials": 130, "errors": False, "second": False, "style": "fin", "minus": 1, "maxus": 150}})
+    scen.append({"sc": "c05.outage", "args": {"noreconnect": True, "errors": False}})
+    scen.append({"sc": "c05.outage", "args": {"noreconnect": True, "errors": True}})
+    return scen
+
+
+def _c03_models(run, wd, thorough):
+    run.model_check(wd, "WsRpc.tla", "WsRpc_c03q.cfg", timeout=1800)
+    if thorough:
+        run.model_check(wd, "WsRpc.tla", "WsRpc_c03t.cfg", timeout=3000)
+    # non-vacuity: without the read-error repair the model loses a call
+    r = run.tlc(wd, "WsRpc.tla", "WsRpc_c03_noreaderrfix.cfg", timeout=900, tag="model_runs")
+    if r["violated"] != "NoLostCall":
+        raise vp.ToolFailure("self-test: WsRpc without the readError repair should violate NoLostCall, got %s" % r["violated"])
+
+
+@check("C03")
+def c03(run, replay):
+    run.assumptions += [
+        "fault kinds FIN and RST at {before, inside header, mid-payload, before last byte, after} of request / response frames 1..3 in "
+        "both directions, with and without a call issued inside the reconnect window (redial held by a gate in the connection factory), "
+        "double faults (second fault on the first frame of the new connection), no-reconnect clients; silent stalls (blackhole) are C17's subject",
+        "clock-free oracle: a call is lost iff it is outstanding after a later probe call round-tripped and no handler runs for it (3 s grace)",
+        "model: WsRpc.tla with faults FIN / payload cut, one reconnect, calls started at any moment",
+    ]
+    thorough = run.tier == "thorough"
+    wd = run.dir("work")
+    rnd = random.Random(run.seed)
+    _c03_models(run, wd, thorough)
+    scen = fault_scenarios(rnd, thorough)
+    trace, viol = run_ws_scenarios(run, wd, scen, "c03", hooks=False, timeout=3000)
+    report_ws(run, trace, viol, "C03", scen, "fault")
+    # C02's token clauses must hold under faults too: report them here as C03 (no foreign result whatever fault occurs)
+    for v in viol:
+        if v[1] == "C02" and v[2] in ("foreign-result", "returned-more-than-once"):
+            run.violation("fault: %s" % v[2], v[2], {"property": "C03", "scenario": scen[v[0] - 1], "clause": v[2], "call": v[3]})
+    run.cov["distinct_nontrivial"] = len(set(json.dumps(s, sort_keys=True) for s in scen))
+    run.cov["rule"] = "fault scenarios: direction x frame x byte position x style x window call x double fault; distinct = distinct descriptions"
+    for s in scen[:3]:
+        run.sample(s)
+    run.sample([e for e in trace if not str(e.get("ev", "")).startswith("h:")][1:14])
+
+
+@check("C04")
+def c04(run, replay):
+    run.assumptions += [
+        "executions are counted per unique call token inside the harness handlers, request frames per token at the proxy",
+        "same fault scenarios as C03 (plain, notification, retry-tagged calls) plus fault-free runs over ws and http for the "
+        "exactly-once clauses; retry-tagged calls are the contrast case (the model shows them re-executing)",
+    ]
+    thorough = run.tier == "thorough"
+    wd = run.dir("work")
+    rnd = random.Random(run.seed)
+    run.model_check(wd, "WsRpc.tla", "WsRpc_c03q.cfg", timeout=1800)
+    r = run.tlc(wd, "WsRpc.tla", "WsRpc_c04_contrast.cfg", timeout=900, tag="model_runs")
+    if r["violated"] != "RetryMayRepeat":
+        raise vp.ToolFailure("self-test: a retry-tagged call should be able to execute twice in the model, got %s" % r["violated"])
+    scen = fault_scenarios(rnd, thorough)
+    for tr in ("ws", "http"):
+        for p in (perms(3) if thorough else perms(3)[:3]):
+            scen.append({"sc": "c02.perm", "args": {"n": 3, "perm": p, "transport": tr}})
+        scen.append({"sc": "c02.stress", "args": {"n": 24, "transport": tr}})
+    for kind in ("unary", "retry", "notify"):
+        for warm in ([1, 3] if thorough else [1]):
+            scen.append({"sc": "c04.httpkill", "args": {"kind": kind, "warm": warm}})
+    trace, viol = run_ws_scenarios(run, wd, scen, "c04", timeout=3000)
+    report_ws(run, trace, viol, "C04", scen, "scenario")
+    run.cov["distinct_nontrivial"] = len(set(json.dumps(s, sort_keys=True) for s in scen))
+    run.cov["rule"] = "C03 fault scenarios + fault-free ws/http runs; distinct = distinct descriptions"
+    for s in scen[:2] + scen[-2:]:
+        run.sample(s)
+
+
+@check("C05")
+def c05(run, replay):
+    run.assumptions += [
+        "outage shapes: kill style x number of failed dials (server unreachable at the proxy) x second fault right after reconnect x "
+        "{reconnect, no-reconnect} x error mapping {on, off} x backoff settings (1-4 ms min, 6-30 ms max, scaled down from the defaults)",
+        "backoff is checked structurally from the library's own computed delays (hook backoff.next): every redial is preceded by its own "
+        "delay d with min <= d <= max and d >= min * 1.5^attempt up to the cap; wall-clock spacing is not asserted",
+        "liveness clauses are judged at quiescence after the server is reachable again (probe call round-tripped)",
+    ]
+    thorough = run.tier == "thorough"
+    wd = run.dir("work")
+    rnd = random.Random(run.seed)
+    run.model_check(wd, "WsRpc.tla", "WsRpc_c05.cfg", timeout=1800)
+    fs = fault_scenarios(rnd, False)
+    scen = outage_scenarios(rnd, thorough) + [s for s in fs if s["args"].get("window")][:10] + [s for s in fs if s["sc"] == "c03.writefail"]
+    trace, viol = run_ws_scenarios(run, wd, scen, "c05", hooks=True, timeout=3000)
+    report_ws(run, trace, viol, "C05", scen, "outage")
+    run.cov["distinct_nontrivial"] = len(set(json.dumps(s, sort_keys=True) for s in scen))
+    run.cov["rule"] = "outage scenarios as listed in assumptions; distinct = distinct descriptions"
+    for s in scen[:3]:
+        run.sample(s)
+    run.sample([e for e in trace if e.get("ev") in ("h:backoff.next", "DialStart", "DialEnd", "ServerUp", "ServerDown")][:14])
